@@ -4,7 +4,7 @@ import csv
 from common import *  # noqa
 import dbtie
 
-PROFILE = {"p_write": 0.55, "file_obs": True, "p_scenario": 0.3, "scenario_pref": ['minute_marks', 'mixed_quoting', 'mixed_quoting', 'sparse_write', 'sparse_write', "odd_strings", "linebreaks", "odd_strings"],
+PROFILE = {'scenario_also': ['line_separators'], "p_write": 0.55, "file_obs": True, "p_scenario": 0.3, "scenario_pref": ['minute_marks', 'mixed_quoting', 'mixed_quoting', 'sparse_write', 'sparse_write', "odd_strings", "linebreaks", "odd_strings"],
            "writes": {"insert": 4, "insert_multiple": 2, "remove": 3, "drop": 1, "remove_all": 0.5, "update": 3, "update_all": 1,
                       "reindex": 0.5, "reopen": 1.5, "handle": 1.5}}
 DIALECTS = [{}, {}, {"delimiter": ";"}, {"quotechar": "'"}, {"quoting": csv.QUOTE_ALL}, {"delimiter": "|", "quotechar": "'", "quoting": csv.QUOTE_ALL},
